@@ -29,7 +29,7 @@ ASSUMPTIONS = [
     "a non-cyclic instance stopped before its first offer may or may not send a StopOffer (the statement only speaks about cyclic instances there)",
     "start() is only called on a stopped announcer (documented precondition); stop() is called in any state",
 ]
-BUDGET = {"quick": {"examples": 8000, "shrink": 300}, "thorough": {"examples": 480000, "shrink": 2000}}
+BUDGET = {"quick": {"examples": 16000, "shrink": 300}, "thorough": {"examples": 480000, "shrink": 2000}}
 INF = 0xFFFFFF
 
 OPTS = [
@@ -91,8 +91,10 @@ def strategy(tier):
 ALPHA = ["start", "stop", "find-mc", "find-uc", "unannounce", "announce", "T-q", "T+q", "T+4", "+0.3"]
 ENUM_LEN = {"quick": 4, "thorough": 5}
 ENUM_TM = [dict(imin=0.01, imax=0.1, reps=2, base=0.05, cyc=1, ttl=3, coll=0.005, rmin=0.02, rmax=0.3),
-           dict(imin=0, imax=0, reps=1, base=0.05, cyc=0, ttl=INF, coll=0, rmin=0.003, rmax=0.02)]
-EXHAUSTIVE = {"quick": "all 10^4 scripts of length 4 over {start, stop, multicast Find, unicast Find, stop_announce, announce} x timing prefixes {next timer -RES/4, +RES/4, +4RES, +0.3 s}, for a cyclic configuration with collection timeout and a non-cyclic one without, two instances",
+           dict(imin=0, imax=0, reps=1, base=0.05, cyc=0, ttl=INF, coll=0, rmin=0.003, rmax=0.02),
+           # a long initial wait and a long request-response window: a delayed answer can outlive a stop and a restart
+           dict(imin=0.4, imax=0.4, reps=1, base=0.05, cyc=1, ttl=3, coll=0, rmin=0.25, rmax=0.25)]
+EXHAUSTIVE = {"quick": "all 10^4 scripts of length 4 over {start, stop, multicast Find, unicast Find, stop_announce, announce} x timing prefixes {next timer -RES/4, +RES/4, +4RES, +0.3 s}, for a cyclic configuration with collection timeout, a non-cyclic one without and one with a long initial wait and request-response delay, two instances",
               "thorough": "all 10^5 scripts of length 5 over the same alphabet and configurations"}
 
 
@@ -102,7 +104,7 @@ def enum_size(tier):
 
 def enum_case(tier, idx):
     idx, ci = divmod(idx, len(ENUM_TM))
-    steps = [{"op": "start", "when": ["d", 0.01]}, {"op": "wait", "when": ["d", 0.2]}]
+    steps = [{"op": "start", "when": ["d", 0.01]}, {"op": "wait", "when": ["d", 0.2 if ci < 2 else 0.6]}]
     when = ["d", 0.01]
     for _ in range(ENUM_LEN[tier]):
         idx, r = divmod(idx, len(ALPHA))
@@ -407,6 +409,12 @@ def run_case(case):
                 for tq, e, rem, _, rr, stopped in q_i:
                     if rr == ri and e.ttl != 0 and rem is None:
                         pass
+                # the first offer of a run is the scheduled one: no answer to a FindService leaves before it
+                for tq, e, rem, _, rr, stopped in q_i:
+                    if rr == ri and e.ttl != 0 and rem is not None:
+                        require(mc_q and mc_q[0] <= tq + RES, "C10.offer-before-first-offer",
+                                lambda: f"instance {INST[i]} started at {t0:.6f}: an offer with TTL {e.ttl} was queued for {rem} at t={tq:.6f}, before the run's first offer "
+                                        f"({'at %.6f' % mc_q[0] if mc_q else 'never sent'}; initial-delay window [{t['imin']},{t['imax']}])")
                 v = vmap.get((i, ri))
                 for qi, tq in enumerate(mc_q):
                     if qi == 0:
